@@ -6,6 +6,9 @@ from . import cssobs
 
 LOOPS = ("each2", "for2", "while2")
 FILES = ("import", "use", "loadcss")
+# loud comments whose text starts unusually: kind -> text between "/*" and the comment name ($col: #abc)
+FORMS = {"l_sph": " #", "l_h": "#", "l_star": "* ", "l_slash": "/ ", "l_i0": "#{1 + 1} ", "l_ih": " #{$col} ",
+         "l_ihd": "#{$col} ", "l_nl": "\nn ", "l_nlh": "\n# "}
 
 
 def render_prog(prog):
@@ -20,6 +23,8 @@ def render_prog(prog):
         prelude.append('@use "sass:meta";')
     if "content" in kinds:
         prelude.append("@mixin wrap { @content; }")
+    if kinds & {"l_ih", "l_ihd"}:
+        prelude.append("$col: #abc;")
     for st in prog:
         if st["k"] == "while2":
             prelude.append(f"$w{st['id']}: 0;")
@@ -36,6 +41,8 @@ def render_prog(prog):
             out.append(f"/*! c{i}{sfx} #{{1 + 1}} */")
         elif k == "silent":
             out.append(f"// c{i}{sfx}")
+        elif k in FORMS:
+            out.append("/*" + FORMS[k] + f"c{i}{sfx} */")
         elif k == "decl":
             out.append(f"m{i}{sfx}: v;")
         elif k == "atstmt":
@@ -256,23 +263,26 @@ class C36(ReachEngine):
     mode = "c36"
     spec_op = "Reach!Observe36"
     styles = ("expanded", "compressed")
-    need = ("loud", "loudi", "bang", "bangi", "silent")
-    leaves = ("loud", "loudi", "bang", "bangi", "silent", "decl")
+    need = ("loud", "loudi", "bang", "bangi", "silent") + tuple(FORMS)
+    leaves = ("loud", "loud", "loudi", "bang", "bangi", "silent", "decl", "decl") + tuple(FORMS)
     conts = ("rule", "nsprop", "media", "atrule", "mixin", "content", "if1", "if0", "else", "each2", "for2", "while2")
     strict = True
-    rule = ("Programs generated by the builder actions of MC_Reach.tla with loud (plain / interpolated), preserved (/*!) and silent comments at "
+    rule = ("Programs generated by the builder actions of MC_Reach.tla with loud (plain / interpolated), preserved (/*!) and silent comments, "
+            "and loud comments whose text starts with space+#, #, *, /, an interpolation (also one yielding #abc), a newline (MC_Reach_C36_c.cfg), at "
             "every statement position: top level, style rules, nested-property blocks, @media, unknown at-rules, mixin bodies, content blocks, "
             "@if/@else branches taken and not taken, @each/@for/@while bodies (reached twice, tagged with the loop value); bounded-exhaustive, "
             "each in expanded and compressed style; the comment sequence of rsass's output is compared with Reach!Observe36. non-trivial = "
             "every vector (contains a comment); distinct = distinct (program, style). Flow B: seeded random programs of <=9 statements, depth <=4, "
             "validated by Trace_Reach.tla.")
     assumptions = ["only placements that are valid Sass are generated (no at-rules inside nested-property blocks, declarations only inside style rules)",
-                   "comment text is compared after collapsing whitespace; comments starting with `#` (source-map comments) are not generated",
+                   "comment text is compared after collapsing whitespace; source-map comments (`/*# sourceMappingURL=`, `/*# sourceURL=`), which Sass drops, are not generated",
                    "comments inside @function bodies are not generated",
                    "only the sequence of comments is compared, not their position relative to declarations"]
     mc_runs = {
-        "quick": [("MC_Reach", "MC_Reach_C36_a.cfg", {"workers": 4}), ("MC_Reach", "MC_Reach_C36_b.cfg", {"workers": 4})],
+        "quick": [("MC_Reach", "MC_Reach_C36_a.cfg", {"workers": 4}), ("MC_Reach", "MC_Reach_C36_b.cfg", {"workers": 4}),
+                  ("MC_Reach", "MC_Reach_C36_c.cfg", {"workers": 4})],
         "thorough": [("MC_Reach", "MC_Reach_C36_a.cfg", {"workers": 4}), ("MC_Reach", "MC_Reach_C36_b.cfg", {"workers": 4}),
+                     ("MC_Reach", "MC_Reach_C36_c.cfg", {"workers": 4}),
                      ("MC_Reach", "MC_Reach_C36_t.cfg", {"workers": 4, "timeout": 1500})],
     }
     random_n = {"quick": 1500, "thorough": 20000}
